@@ -39,8 +39,9 @@ func unwindAztecDraw(cc *checkCtx, compact bool, layers int) []oblRes {
 		ref := "aztec.EncodeWithColor"
 		data := c.SymParam(ref, 0, "data")
 		pct := c.SymParam(ref, 1, "pct")
-		// the percentage is any int: negative ones must be refused; for an empty payload (no data
-		// bits, known finding F6) the answer is left open
+		// C10's parameter domain: any non-negative percentage (however large); for an empty payload
+		// (no data bits, known finding F6) the answer is left open
+		c.Assume(term.Le(term.I(0), c.Term(pct)))
 		color := c.SymParam(ref, 3, "color")
 		rets, e := c.CallRets(ref, data, pct, exec.IntV(user, c.ParamType(ref, 2)), color)
 		if e != nil {
@@ -121,10 +122,10 @@ func unwindAztecDraw(cc *checkCtx, compact bool, layers int) []oblRes {
 			if compact {
 				fits = term.And(fits, term.Le(stuffed, term.I(int64(64*ws))))
 			}
-			c.Oblige("config", label+"/ecc-honoured", ok, term.And(fits, term.Le(term.I(0), c.Term(pct))))
+			c.Oblige("config", label+"/ecc-honoured", ok, fits)
 			for i, r := range errPaths {
 				r.C.Oblige("config", fmt.Sprintf("%s/refused-only-if-too-large#%d", label, i), term.True,
-					term.Or(term.Not(fits), term.Lt(c.Term(pct), term.I(0)), term.Eq(c.Term(c.Field(hlRes, "count")), term.I(0))))
+					term.Or(term.Not(fits), term.Eq(c.Term(c.Field(hlRes, "count")), term.I(0))))
 			}
 		}
 		msg := c.MathArr(c.Field(msgBits, "model"))
@@ -221,8 +222,9 @@ func unwindAztecAuto(cc *checkCtx) []oblRes {
 		ref := "aztec.EncodeWithColor"
 		data := c.SymParam(ref, 0, "data")
 		pct := c.SymParam(ref, 1, "pct")
-		// the percentage is any int: negative ones must be refused; for an empty payload (no data
-		// bits, known finding F6) the answer is left open
+		// C10's parameter domain: any non-negative percentage (however large); for an empty payload
+		// (no data bits, known finding F6) the answer is left open
+		c.Assume(term.Le(term.I(0), c.Term(pct)))
 		color := c.SymParam(ref, 3, "color")
 		rets, e := c.CallRets(ref, data, pct, exec.IntV(0, c.ParamType(ref, 2)), color)
 		if e != nil && e.Error() != "aztec.EncodeWithColor does not return" {
@@ -300,7 +302,7 @@ func unwindAztecAuto(cc *checkCtx) []oblRes {
 			ws := aztecspec.WordSize(k.compact, k.layers)
 			// the word count handed to the mode message is the stuffed length in words
 			v.Oblige("config", name+"/words", term.True, term.Eq(v.Term(cr.Args[2]), term.Div(S(ws), term.I(int64(ws)))))
-			v.Oblige("config", name+"/fits", term.True, term.And(fits(k), term.Le(term.I(0), c.Term(pct))))
+			v.Oblige("config", name+"/fits", term.True, fits(k))
 			var none []*T
 			for _, j := range cands {
 				if aztecspec.SymbolSize(j.compact, j.layers) < aztecspec.SymbolSize(k.compact, k.layers) {
@@ -320,7 +322,7 @@ func unwindAztecAuto(cc *checkCtx) []oblRes {
 				none = append(none, term.Not(fits(j)))
 			}
 			r.C.Oblige("config", fmt.Sprintf("%s/too-large#%d", label, i), term.True,
-				term.And(term.Ne(errTag, term.I(0)), term.Or(term.And(none...), term.Lt(c.Term(pct), term.I(0)), term.Eq(hlCount, term.I(0)))))
+				term.And(term.Ne(errTag, term.I(0)), term.Or(term.And(none...), term.Eq(hlCount, term.I(0)))))
 		}
 	})
 	if err != nil {
